@@ -41,4 +41,5 @@ def run(ctx: Ctx):
     frames.orthonormal(ctx, "R1.1")
     frames.right_handed_and_anchored(ctx, "R17.1", "R17.2")
     frames.inputs_untouched(ctx, "R17.3")
+    frames.exact_degeneracy_test(ctx, "R17.6")
     rotmat.rules(ctx)
